@@ -119,10 +119,97 @@ def run(ctx):
     ctx.go_test("c11_rest", run="TestDriver", infile=inp, env={"VERIF_TRACE": trace}, timeout=3000)
     # V
     validate(ctx, trace)
+    concurrent(ctx)
+
+
+def concurrent(ctx):
+    """Concurrent clause: the auth decision of a request depends on its own credentials only.
+
+    SPEC RestAPIConc: the statements of basicAuthHandler for N concurrent requests; as coded (per-request state) the
+    invariant holds, with AuthStateShared = TRUE TLC refutes it (design-level witness of what the stage looks for).
+    R+V  K goroutines x M rounds against the real API under the race detector; TLC judges every recorded outcome."""
+    ctx.tlc("RestAPIConc.tla", "RestAPIConc_coded.cfg", workers=4, timeout=900)
+    r = ctx.tlc("RestAPIConc.tla", "RestAPIConc_shared.cfg", workers=1, timeout=900, expect_violation=True, count=False)
+    if not r.violation:
+        raise vcheck.Infra("RestAPIConc with shared auth state is expected to be refuted")
+    trace = os.path.join(ctx.work, "c11_conc.ndjson")
+    env = {"VERIF_TRACE": trace}
+    if not ctx.quick():
+        env.update({"C11_CONC_WORKERS": 16, "C11_CONC_ROUNDS": 1500})
+    dr = ctx.go_test("c11_rest", run="TestConcurrent$", env=env, timeout=2400, race=True, count=False, allow_fail=True)
+    races = race_reports(dr.stdout, ctx.repo)
+    for key, text in races.items():
+        ctx.violation("C11:auth:race" if "basicAuthHandler" in key else "C11:race:" + key,
+                      "data race reported by the race detector in api/rest while serving concurrent requests: " + key,
+                      {"report": text[:4000], "seed": ctx.seed})
+    if dr.infra and not races:
+        raise vcheck.Infra("concurrent stage: %s" % dr.infra[0])
+    if dr.rc != 0 and not races:
+        print(dr.stdout[-3000:])
+        raise vcheck.Infra("concurrent driver failed (rc=%d)%s" % (
+            dr.rc, ": race reported outside ipfs-cluster code (harness or dependency)" if "DATA RACE" in dr.stdout else ""))
+    if not os.path.exists(trace):
+        if races:
+            return
+        raise vcheck.Infra("concurrent stage wrote no trace")
+    ctx.absorb(dr, "c11_rest", "TestConcurrent$")
+    verdict = os.path.join(ctx.work, "c11_conc_verdict.ndjson")
+    r = tla.run_tlc(ctx.specdir(), "RestAPIConcTrace.tla", "RestAPIConcTrace.cfg", workers=1, timeout=1200, heap="4g",
+                    env_extra={"TRACE_FILE": trace, "VERDICT_FILE": verdict})
+    ctx.log("tlc RestAPIConcTrace: rc=%s %.1fs" % (r.rc, r.wall))
+    if not os.path.exists(verdict):
+        print(r.out[-3000:])
+        raise vcheck.Infra("RestAPIConcTrace produced no verdict")
+    v = json.loads(open(verdict).readline())
+    recs = [json.loads(l) for l in open(trace)]
+    if v["n"] != len(recs) or v["unknown"]:
+        raise vcheck.Infra("concurrent verdict covers %d of %d records, %d with unknown credential class" % (
+            v["n"], len(recs), len(v["unknown"])))
+    ctx.extra["concurrent_outcomes_checked_by_tlc"] = v["n"]
+    bad = set(v["badaccepted"]) | set(v["goodrefused"]) | set(v["dup"])
+    ctx.traces_validated += v["n"] - len(bad)
+    for name, key, what in (("badaccepted", "C11:auth:concurrent:bad-creds-accepted",
+                             "a request without valid credentials was let through while other requests were in flight"),
+                            ("goodrefused", "C11:auth:concurrent:good-creds-refused",
+                             "a request with valid credentials was refused (or not performed) while other requests were in flight"),
+                            ("dup", "C11:auth:concurrent:operation-repeated",
+                             "the operation of one request reached the RPC layer more than once")):
+        for i in v[name][:5]:
+            rec = recs[i - 1]
+            ctx.violation(key, "%s: credentials %s, %s, status %s, operation reached the cluster %d time(s) "
+                          "(%d of %d concurrent requests affected)" % (what, rec["cred"], rec["op"], rec["status"],
+                                                                        rec["reached"], len(v[name]), v["n"]),
+                          {"concurrent": rec, "seed": ctx.seed})
+    if v["lost"] and not races and not bad:
+        raise vcheck.Infra("%d of %d concurrent requests got no answer at all (first: %s)" % (
+            len(v["lost"]), v["n"], recs[v["lost"][0] - 1].get("err", "")))
+
+
+def race_reports(out, repo):
+    """DATA RACE blocks with a racing access in ipfs-cluster source (not in the harness)."""
+    import re
+    found = {}
+    for blk in re.findall(r'WARNING: DATA RACE\n(.*?)\n==================', out, re.S):
+        tops = []
+        for sec in re.split(r'\n\n', blk):
+            if re.match(r'(Read|Write|Previous read|Previous write|Atomic)', sec.strip()):
+                m = re.search(r'\n\s+(\S+)\(\)\n\s+(\S+):(\d+)', "\n" + sec)
+                if m:
+                    tops.append((m.group(1), m.group(2)))
+        mine = [t for t in tops if (t[1].startswith(repo + "/") or "github.com/ipfs/ipfs-cluster" in t[0])
+                and "verifharness" not in t[0]]
+        if mine:
+            key = "|".join(sorted({t[0].split("/")[-1] for t in mine}))
+            found.setdefault(key, blk)
+    return found
 
 
 def replay(ctx, path):
     j = json.load(open(path))
+    if str(j.get("key", "")).startswith(("C11:auth:", "C11:race:")):
+        ctx.seed = int(j.get("seed", ctx.seed))
+        concurrent(ctx)
+        return
     req = (j.get("case") or {}).get("req")
     if not req:
         raise vcheck.Infra("replay file has no request")
